@@ -1,6 +1,8 @@
 //! polysmallmod wrappers: every `_p` (all RNS components of one polynomial) and `_ps` (several polynomials) wrapper must equal its
 //! single-component kernel applied block by block — for 1..4 polynomials, 1..3 components, DIRTY destinations.  The kernels themselves
 //! are compared with the Lean model line by line (C08 / C09 / C02 / C10); this oracle covers the offset arithmetic around them.
+//! (The macros below paste the wrapper names, so a textual search for a call does not find them: `binary!` calls pm::add_p(..), pm::add_ps(..),
+//! pm::sub_p(..), pm::sub_ps(..) and the dyadic family, `tr!` calls pm::ntt_p(..), pm::ntt_ps(..), pm::intt_p(..), pm::intt_ps(..) and the lazy forms.)
 use crate::rng::Rng;
 use crate::util::*;
 use heathcliff::util as hu;
@@ -82,5 +84,61 @@ pub fn run(out: &mut Out, r: &mut Rng, reps: usize, ntt_family: bool) {
         }
         if bad.is_empty() { out.raw(&format!("!OK poly_wrappers {} {} # {}", if ntt_family { "ntt" } else { "arith" }, fl(&qs), cls)); }
         else { out.raw(&format!("!FAIL poly_wrappers {} n={} k={} polys={} {} :: {} # {}", if ntt_family { "ntt" } else { "arith" }, n, k, pc, fl(&qs), bad.join("; "), cls)); }
+    }
+}
+
+/// The precomputed-operand and monomial families: `multiply_operand{,_inplace}_{p,ps}` against the kernel `multiply_operand` and
+/// `negacyclic_multiply_mononomial{,s}{,_inplace}_{p,ps}` against the kernel `negacyclic_multiply_mononomial` (itself compared with the Lean
+/// model and the definition "times c X^k modulo (X^N + 1, q)" by the `negacyclic_monomial` lines of C09), block by block, DIRTY destinations.
+/// The `mononomials` forms take one coefficient PER MODULUS; the single-operand forms hand the same `MultiplyU64ModOperand` to every component
+/// (as the library's callers do for values below every modulus), so the reference does the same.
+pub fn run_mono(out: &mut Out, r: &mut Rng, reps: usize) {
+    for rep in 0..reps {
+        let lg = r.range(1, 4) as usize; let n = 1usize << lg;
+        let k = 1 + rep % 3; let pc = 1 + (rep / 3) % 4;
+        let bitsv: Vec<usize> = (0..k).map(|_| *r.pick(&[20usize, 30, 45, 59, 60])).collect();
+        let qs = crate::c10::ntt_primes(r, n, &bitsv);
+        if qs.len() != k { continue; }
+        let ms: Vec<Modulus> = qs.iter().map(|&q| Modulus::new(q)).collect();
+        let d = n * k; let len = d * pc;
+        let a: Vec<u64> = (0..len).map(|i| { let q = qs[(i / n) % k]; match r.below(6) { 0 => 0, 1 => q - 1, _ => r.below(q) } }).collect();
+        let qmin = *qs.iter().min().unwrap();
+        let scalar = match r.below(4) { 0 => 1, 1 => qmin - 1, _ => r.below(qmin) };
+        let coeffs: Vec<u64> = qs.iter().map(|&q| match r.below(4) { 0 => 1, 1 => q - 1, _ => r.below(q) }).collect();
+        let sh = match r.below(4) { 0 => 0, 1 => n, 2 => 2 * n - 1, _ => r.below(2 * n as u64) as usize };
+        let cls = format!("wrap-mono-n{}k{}p{}", n, k, pc);
+        let mut bad: Vec<String> = vec![];
+        let blockwise = |f: &dyn Fn(&[u64], usize, &Modulus, &mut [u64])| -> Vec<u64> {
+            let mut res = vec![DIRTY; len];
+            for p in 0..pc { for c in 0..k { let o = p * d + c * n; f(&a[o..o + n], c, &ms[c], &mut res[o..o + n]); } }
+            res };
+        macro_rules! chk { ($name:expr, $want:expr, $got:expr) => {{
+            let g = std::panic::catch_unwind(std::panic::AssertUnwindSafe(|| $got));
+            match g { Ok(g) => if g != $want { bad.push(format!("{} differs from the kernel applied block by block", $name)); }, Err(_) => bad.push(format!("{} panicked on well-shaped operands", $name)) } }} }
+        // precomputed operand (built for the first modulus; with one modulus the result is the exact product, checked against u128 arithmetic too)
+        let op = hu::MultiplyU64ModOperand::new(scalar, &ms[0]);
+        { let want = blockwise(&|x, _c, m, res| pm::multiply_operand(x, &op, m, res));
+          if k == 1 { let exact: Vec<u64> = a.iter().map(|&x| ((x as u128 * scalar as u128) % qs[0] as u128) as u64).collect();
+              if want != exact { bad.push("multiply_operand is not the product modulo q".to_string()); } }
+          chk!("multiply_operand_ps", want, { let mut res = vec![DIRTY; len]; pm::multiply_operand_ps(&a, &op, pc, n, &ms, &mut res); res });
+          chk!("multiply_operand_p", want, { let mut res = vec![DIRTY; len]; for p in 0..pc { let o = p * d; pm::multiply_operand_p(&a[o..o + d], &op, n, &ms, &mut res[o..o + d]); } res });
+          chk!("multiply_operand_inplace", want, { let mut x = a.clone(); for p in 0..pc { for c in 0..k { let o = p * d + c * n; pm::multiply_operand_inplace(&mut x[o..o + n], &op, &ms[c]); } } x });
+          chk!("multiply_operand_inplace_p", want, { let mut x = a.clone(); for p in 0..pc { let o = p * d; pm::multiply_operand_inplace_p(&mut x[o..o + d], &op, n, &ms); } x });
+          chk!("multiply_operand_inplace_ps", want, { let mut x = a.clone(); pm::multiply_operand_inplace_ps(&mut x, &op, pc, n, &ms); x }); }
+        // one monomial coefficient for all components
+        { let want = blockwise(&|x, _c, m, res| pm::negacyclic_multiply_mononomial(x, scalar, sh, m, res));
+          chk!("negacyclic_multiply_mononomial_ps", want, { let mut res = vec![DIRTY; len]; pm::negacyclic_multiply_mononomial_ps(&a, scalar, sh, pc, n, &ms, &mut res); res });
+          chk!("negacyclic_multiply_mononomial_p", want, { let mut res = vec![DIRTY; len]; for p in 0..pc { let o = p * d; pm::negacyclic_multiply_mononomial_p(&a[o..o + d], scalar, sh, n, &ms, &mut res[o..o + d]); } res });
+          chk!("negacyclic_multiply_mononomial_inplace", want, { let mut x = a.clone(); for p in 0..pc { for c in 0..k { let o = p * d + c * n; pm::negacyclic_multiply_mononomial_inplace(&mut x[o..o + n], scalar, sh, &ms[c]); } } x });
+          chk!("negacyclic_multiply_mononomial_inplace_p", want, { let mut x = a.clone(); for p in 0..pc { let o = p * d; pm::negacyclic_multiply_mononomial_inplace_p(&mut x[o..o + d], scalar, sh, n, &ms); } x });
+          chk!("negacyclic_multiply_mononomial_inplace_ps", want, { let mut x = a.clone(); pm::negacyclic_multiply_mononomial_inplace_ps(&mut x, scalar, sh, pc, n, &ms); x }); }
+        // one coefficient per modulus
+        { let want = blockwise(&|x, c, m, res| pm::negacyclic_multiply_mononomial(x, coeffs[c], sh, m, res));
+          chk!("negacyclic_multiply_mononomials_ps", want, { let mut res = vec![DIRTY; len]; pm::negacyclic_multiply_mononomials_ps(&a, &coeffs, sh, pc, n, &ms, &mut res); res });
+          chk!("negacyclic_multiply_mononomials_p", want, { let mut res = vec![DIRTY; len]; for p in 0..pc { let o = p * d; pm::negacyclic_multiply_mononomials_p(&a[o..o + d], &coeffs, sh, n, &ms, &mut res[o..o + d]); } res });
+          chk!("negacyclic_multiply_mononomials_inplace_p", want, { let mut x = a.clone(); for p in 0..pc { let o = p * d; pm::negacyclic_multiply_mononomials_inplace_p(&mut x[o..o + d], &coeffs, sh, n, &ms); } x });
+          chk!("negacyclic_multiply_mononomials_inplace_ps", want, { let mut x = a.clone(); pm::negacyclic_multiply_mononomials_inplace_ps(&mut x, &coeffs, sh, pc, n, &ms); x }); }
+        if bad.is_empty() { out.raw(&format!("!OK poly_wrappers mono {} {} {} {} # {}", fl(&qs), scalar, fl(&coeffs), sh, cls)); }
+        else { out.raw(&format!("!FAIL poly_wrappers mono n={} k={} polys={} {} scalar={} coeffs={} shift={} :: {} # {}", n, k, pc, fl(&qs), scalar, fl(&coeffs), sh, bad.join("; "), cls)); }
     }
 }
